@@ -31,7 +31,7 @@ static uint64_t drv_s;
 static unsigned drv_below(unsigned n) { drv_s ^= drv_s << 13; drv_s ^= drv_s >> 7; drv_s ^= drv_s << 17; return n ? (unsigned) ((drv_s >> 11) % n) : 0; }
 
 /* counters of what the derived sources contained (read by the harness for its "# derived" plan comment) */
-static unsigned long drv_made, drv_with_memcache, drv_dropped_pu, drv_dropped_node, drv_allow_refused, drv_v2, drv_two_level_memcache, drv_retyped, drv_retyped_cpuless;
+static unsigned long drv_made, drv_with_memcache, drv_dropped_pu, drv_dropped_node, drv_allow_refused, drv_v2, drv_two_level_memcache, drv_retyped, drv_retyped_cpuless, drv_misc;
 
 static void drv_clear_env(void) {
   unsetenv("HWLOC_FSROOT"); unsetenv("HWLOC_CPUID_PATH"); unsetenv("HWLOC_COMPONENTS"); unsetenv("HWLOC_DUMPED_HWDATA_DIR");
@@ -181,6 +181,21 @@ static char *drv_make_xml(const char *arg, int *lenp) {
     }
     hwloc_bitmap_free(cs); hwloc_bitmap_free(ns); hwloc_bitmap_free(c2); hwloc_bitmap_free(n2);
   }
+  if (!drv_below(3)) {
+    /* Misc objects on random objects of any kind, preferably on BOTH sides of a parent with a single normal child (level merging
+     * hands the special children of the removed object over to the surviving one) and below memory objects */
+    unsigned nm = 1 + drv_below(5), depth = (unsigned) hwloc_topology_get_depth(t0);
+    for (unsigned k = 0; k < nm; k++) {
+      unsigned d = drv_below(depth), w = hwloc_get_nbobjs_by_depth(t0, (int) d);
+      hwloc_obj_t o = w ? hwloc_get_obj_by_depth(t0, (int) d, drv_below(w)) : NULL;
+      for (int tries = 0; tries < 8 && o && o->arity != 1; tries++) { d = drv_below(depth); w = hwloc_get_nbobjs_by_depth(t0, (int) d); o = w ? hwloc_get_obj_by_depth(t0, (int) d, drv_below(w)) : NULL; }
+      if (!o) continue;
+      char nmbuf[32]; snprintf(nmbuf, sizeof nmbuf, "drv-misc-%u", k);
+      if (hwloc_topology_insert_misc_object(t0, o, nmbuf)) drv_misc++;
+      if (o->arity == 1 && drv_below(4)) { snprintf(nmbuf, sizeof nmbuf, "drv-misc-%u-child", k); if (hwloc_topology_insert_misc_object(t0, o->first_child, nmbuf)) drv_misc++; }
+      if (o->memory_first_child && !drv_below(3)) { snprintf(nmbuf, sizeof nmbuf, "drv-misc-%u-mem", k); if (hwloc_topology_insert_misc_object(t0, o->memory_first_child, nmbuf)) drv_misc++; }
+    }
+  }
   int has_msc = hwloc_get_nbobjs_by_type(t0, HWLOC_OBJ_MEMCACHE) > 0;
   if (has_msc) drv_with_memcache++;
   {
@@ -237,7 +252,8 @@ static void drv_gen_filters(char *f) {
   unsigned mode = rng_below(100);
   if (mode < 18) ;                                                                     /* all defaults */
   else if (mode < 28) { for (int i = 0; i < 20; i++) f[i] = '0'; f[13] = '-'; }        /* keep all */
-  else if (mode < 36) { for (int i = 0; i < 20; i++) f[i] = '2'; }                     /* keep structure */
+  else if (mode < 36) { for (int i = 0; i < 20; i++) f[i] = '2';                       /* keep structure */
+                        if (rng_chance(60)) for (int i = 16; i < 20; i++) f[i] = '0'; }  /* ... with I/O and Misc kept: merged levels hand them over */
   else if (mode < 43) { for (int i = 0; i < 20; i++) f[i] = '1'; }                     /* keep none (where legal) */
   else if (mode < 70) {                     /* the types whose default is not KEEP_ALL (+ Die): each a random filter, half of the time */
     for (unsigned k = 0; k < sizeof sp / sizeof *sp; k++) if (rng_chance(50)) f[sp[k]] = (char) ('0' + rng_below(4));
